@@ -2,6 +2,8 @@ use std::sync::LazyLock;
 
 pub mod mojang_adapter;
 pub mod status_adapter;
+#[cfg(feature = "verif-hooks")]
+mod verif_hooks;
 
 // reexport adapters
 pub use mojang_adapter::MojangAdapter;
